@@ -166,8 +166,40 @@ fn read_string_value<'a>(src: &mut &'a [u8]) -> io::Result<Option<Value<'a>>> {
 fn read_string_array_value<'a>(src: &mut &'a [u8]) -> io::Result<Option<Value<'a>>> {
     match read_typed_value(src)? {
         None | Some(TypedValue::String(None)) => Ok(None),
-        Some(TypedValue::String(Some(s))) => Ok(Some(Value::Array(Array::String(Box::new(s))))),
+        Some(TypedValue::String(Some(s))) => {
+            Ok(Some(Value::Array(Array::String(Box::new(RawStrings(s))))))
+        }
         v => Err(type_mismatch_error(v, Type::String)),
+    }
+}
+
+/// A comma-delimited list of raw strings.
+///
+/// Unlike in VCF text, strings in BCF are not percent-encoded.
+struct RawStrings<'a>(&'a str);
+
+impl<'a> vcf::variant::record::info::field::value::array::Values<'a, Cow<'a, str>>
+    for RawStrings<'a>
+{
+    fn len(&self) -> usize {
+        if self.0.is_empty() {
+            0
+        } else {
+            self.0.split(',').count()
+        }
+    }
+
+    fn iter(&self) -> Box<dyn Iterator<Item = io::Result<Option<Cow<'a, str>>>> + '_> {
+        const MISSING: &str = ".";
+
+        if self.0.is_empty() {
+            Box::new(iter::empty())
+        } else {
+            Box::new(self.0.split(',').map(|s| match s {
+                MISSING => Ok(None),
+                _ => Ok(Some(Cow::from(s))),
+            }))
+        }
     }
 }
 
